@@ -1,9 +1,6 @@
 // ---- C10: the pypi rule is a projection (pypi_norm(pypi_norm(s)) == pypi_norm(s)) ----
 // A-validated per char (exhaustive over all scalar values):
-#[verifier::external_body]
-pub proof fn axiom_lower_nonempty(c: char)
-    ensures u_to_lower(c).len() > 0
-{ }
+// (axiom_lower_nonempty: see base.rs)
 #[verifier::external_body]
 pub proof fn axiom_lower_no_dash(c: char)
     requires !dash(c)
